@@ -57,6 +57,9 @@ func (c StackCfg) Key() string {
 // past like any other negative offset.
 const DeadlineZeroTime = time.Duration(-1 << 62)
 
+// DeadlineFarFuture as StackCfg.Deadline: the deadline limiter is given 9999-12-31 (a "never" deadline).
+const DeadlineFarFuture = time.Duration(1<<62 + 7)
+
 // Stack is a built limiter stack plus the observation points the oracles use.
 type Stack struct {
 	Cfg        StackCfg
@@ -241,6 +244,9 @@ func BuildStack(c StackCfg) (*Stack, error) {
 			st.DeadlineAt = time.Now().Add(c.Deadline)
 			if c.Deadline == DeadlineZeroTime {
 				st.DeadlineAt = time.Time{} // the zero time.Time: a deadline long past
+			}
+			if c.Deadline == DeadlineFarFuture {
+				st.DeadlineAt = time.Date(9999, 12, 31, 23, 59, 59, 0, time.UTC) // "never": beyond what fits into int64 nanoseconds since 1970
 			}
 			st.Lim = limiter.NewDeadlineLimiter(st.Default, st.DeadlineAt, c.logger())
 		}
